@@ -9,8 +9,9 @@
   * "describes a prefix of the final report (items it shows as finished never change afterwards)"
       `Prefix` (`Saving.prefixB`), read back by `finished_result_identical`, `ended_step_identical`,
       `ended_suite_identical`, `ended_session_identical`; `prefix_refl`, `prefix_trans`;
-      `prefix_step` (one handler), `prefix_monotone` (all pairs of prefixes of every stream whose events
-      target nothing finished — `SafeStream`, the fact the stream grammar of C07 provides).
+      `prefix_step` (one handler), `prefix_monotone_safe` (all pairs of prefixes of every stream whose events
+      target nothing finished — `SafeStream`), `safe_of_grammar` (C07's grammar + unique paths give `SafeStream`),
+      `prefix_monotone` (hence: all pairs of prefixes of every well-formed stream).
   * "the report file, whenever it exists, can be loaded and describes a prefix"
       `snapshot_is_prefix` (the same thread mutates and saves: a saved text is the serialisation of the
       report of a prefix of the stream), `saved_snapshot_prefix_of_final`.
@@ -29,7 +30,7 @@
   content; loss of page-cache content on power failure is out of scope (the property speaks of process
   death).
 -/
-import LccModel.Lemmas.Saving
+import LccModel.Lemmas.SavingLink
 
 namespace LccModel.C10
 open LccModel.Report LccModel.Writer LccModel.Saving
@@ -116,7 +117,7 @@ theorem fold_ok {es : List Event} {r0 a : Report} (h : fold es r0 = .ok a) :
 /-- The report after `k` events is a prefix of the report after `m ≥ k` events, for every stream whose
     events target nothing finished, every `k ≤ m`, every initial report.  (`fold (es.take k)` is the report
     `ReportWriter` holds after the handler thread has handled `k` events.) -/
-theorem prefix_monotone (es : List Event) (r0 : Report) (k m : Nat) (hs : SafeStream es r0) (hkm : k ≤ m)
+theorem prefix_monotone_safe (es : List Event) (r0 : Report) (k m : Nat) (hs : SafeStream es r0) (hkm : k ≤ m)
     {a b : Report} (hk : fold (es.take k) r0 = .ok a) (hm : fold (es.take m) r0 = .ok b) : Prefix a b := by
   obtain ⟨wa, hra, rfl⟩ := fold_ok hk
   obtain ⟨wb, hrb, rfl⟩ := fold_ok hm
@@ -131,11 +132,31 @@ theorem prefix_monotone (es : List Event) (r0 : Report) (k m : Nat) (hs : SafeSt
   rw [run_append, hra] at hrb
   exact run_prefix _ wa wb (safeRun_append_right _ _ _ wa hsm hra) hrb
 
+/-- **C07's grammar gives the hypothesis.**  A stream accepted by the stream grammar of C07 (strict mode, any
+    number of worker threads: `Grammar.WellFormedPrefix`) in which no test / setup / teardown location and no
+    suite path is started twice (`Grammar.Fresh`) is a `SafeStream`, from every initial report that has nothing
+    in it yet (`Blank`: the `Report()` `Session.create` makes, whatever its title / info / thread count).
+    Proof: an invariant linking the grammar's state (open suites / results / steps), the writer's state
+    (`active_steps`, the report as seen through `find_suite` / `report.get`) and the set of locations already
+    started, preserved by each of the 22 event kinds (`Lemmas/SavingLink.lean`). -/
+theorem safe_of_grammar (es : List Event) (r0 : Report) (hb : Blank r0)
+    (hwf : Grammar.WellFormedPrefix es) (hfresh : Grammar.Fresh es) : SafeStream es r0 :=
+  safeRun_of_grammar es r0 hb hwf hfresh
+
+/-- **Prefix monotonicity** for well-formed streams: the report the writer holds after `k` events is a prefix
+    of the report after `m ≥ k` events — finished results, ended steps, ended suites never change. -/
+theorem prefix_monotone (es : List Event) (r0 : Report) (hb : Blank r0) (k m : Nat)
+    (hwf : Grammar.WellFormedPrefix es) (hfresh : Grammar.Fresh es) (hkm : k ≤ m)
+    {a b : Report} (hk : fold (es.take k) r0 = .ok a) (hm : fold (es.take m) r0 = .ok b) : Prefix a b :=
+  prefix_monotone_safe es r0 k m (safe_of_grammar es r0 hb hwf hfresh) hkm hk hm
+
+theorem blank_empty : Blank Report.empty := ⟨rfl, rfl, rfl, rfl, rfl⟩
+
 /-- In particular every intermediate report is a prefix of the final one. -/
 theorem prefix_of_final (es : List Event) (r0 : Report) (k : Nat) (hs : SafeStream es r0)
     {a b : Report} (hk : fold (es.take k) r0 = .ok a) (hm : fold es r0 = .ok b) : Prefix a b := by
   by_cases hkl : k ≤ es.length
-  · exact prefix_monotone es r0 k es.length hs hkl hk (by rw [List.take_length]; exact hm)
+  · exact prefix_monotone_safe es r0 k es.length hs hkl hk (by rw [List.take_length]; exact hm)
   · rw [List.take_of_length_le (by omega)] at hk
     rw [hk] at hm; injection hm with hm; subst hm; exact prefix_refl _
 
@@ -363,6 +384,17 @@ theorem file_always_loadable_prefix (ser : Report → Text) (chunk : Text → Li
     simp only [visible, diskOps]
     rw [hv, hchunk]
 
+/-- The main theorem under C07's grammar instead of `SafeStream`. -/
+theorem file_always_loadable_prefix_wf (ser : Report → Text) (chunk : Text → List Text)
+    (hchunk : ∀ t, (chunk t).flatten = t)
+    (strat : Strategy) (clock : Nat → Nat) (r0 : Report) (hb : Blank r0) (es : List Event) (s : Sess)
+    (hwf : Grammar.WellFormedPrefix es) (hfresh : Grammar.Fresh es)
+    (h : sessRun strat clock (Sess.init clock r0) es = .ok s) (n : Nat) :
+    let v := visible (fsRun FS.empty ((diskOps saveAtomic ser chunk s).take n))
+    v = none ∨ ∃ k snap, k ≤ es.length ∧ fold (es.take k) r0 = .ok snap ∧ v = some (ser snap) ∧
+      Loadable ser (ser snap) ∧ Prefix snap s.w.report :=
+  file_always_loadable_prefix ser chunk hchunk strat clock r0 es s (safe_of_grammar es r0 hb hwf hfresh) h n
+
 /-! ### Non-vacuity -/
 
 section Examples
@@ -390,7 +422,11 @@ def demo : List Event := [
   .suiteEnd ["s"] 16,
   .sessionEnd 17]
 
-/-- the hypothesis of `prefix_monotone` is satisfiable by a realistic stream … -/
+/-- the hypotheses of `prefix_monotone` are satisfiable by a realistic stream: the grammar accepts it (it is
+    even a complete well-formed stream), no path is started twice, and it is safe … -/
+example : Grammar.WellFormedPrefix demo := by decide
+example : (demo.filterMap Grammar.introduces).Nodup ∧ (demo.filterMap Grammar.introducedSuite).Nodup := by decide
+example : (Grammar.run .parallel Grammar.init demo).map (·.phase) = some .ended := by decide
 example : SafeStream demo := by decide
 
 /-- … it is not trivially true: logging into the ended step of a finished test is rejected … -/
